@@ -26,6 +26,9 @@ CLAIMED = {
  'C03': ("Coq theorems for ALL parsed systems about a model of EquationReduction (FindExactMatches/MoveDecorative loop): termination, variables preserved as a permutation, same real solution set for the reduced block plus decoration, acyclic decoration order; model tied to equation_parser.py by an AST-level correspondence on random alias-rich blocks; oracle compares reduced and unreduced solves (exactly at k=0).",
          "Trusts: Coq kernel+vm_compute; stdlib Reals axioms + functional_extensionality_dep in the solution-set theorems; hand-written model coq/Reduce/Reduce.v validated by correspondence each run; Python ast as the reading of right-hand sides; the float iteration itself is C02's subject.",
          "Coq proof by invariant over the substitution loop + correspondence check", "DESIGN.md section 6 C03"),
+ 'C14': ("Coq theorems (closed under the global context) about a string-level model of EquationParser.ParseString for ALL well-formed block descriptions: every item is classified into exactly the expected list with its right-hand side text, default time variable, malformed lines reported, and trailing comments are inert for all comment texts; model tied to equation_parser.py by a correspondence on random blocks with hostile comments and spacing; end-to-end description independence of Model.main() tested by the oracle.",
+         "Trusts: Coq kernel+vm_compute; hand-written model coq/Block/Classify.v validated by correspondence each run; float() acceptance of the Err_Tolerance literal is a trusted table supplied by the harness.",
+         "Coq proof over block descriptions (printer/parser round trip) + correspondence check", "DESIGN.md section 6 C14"),
 }
 def chk(pid):
     text, note, tech, ref = CLAIMED[pid]
